@@ -278,4 +278,3 @@ func Sorted() []*Expr {
 	sort.Slice(out, func(i, j int) bool { return out[i].Name < out[j].Name })
 	return out
 }
-// t
